@@ -9,7 +9,8 @@
      * [lzma2_mt_writer_data]: the concatenation of streams written unit by unit decodes to the
        concatenation of the units' data. *)
 From LzVerif Require Import Base.Bytes Codec.Store Codec.Range Codec.ProbProofs Codec.RangeArithProofs
-  Codec.LzWindow Codec.LzmaDec Codec.LzmaEnc Codec.LzmaAbs Codec.LzWindowProofs Codec.LzmaChunkProofs Codec.LzmaWriters
+  Codec.LzWindow Codec.LzmaDec Codec.LzmaEnc Codec.LzmaAbs Codec.LzWindowProofs Codec.RangeEncProofs Codec.RangeProofs
+  Codec.LzmaSymProofs Codec.LzmaRoundtrip Codec.LzmaChunkProofs Codec.LzmaWriters
   Codec.Lzma2Dec Codec.Lzma2SpecProofs Codec.Lzma2FrameSyncProofs Codec.Lzma2LoopProofs Codec.Lzma2Loop0Proofs Codec.Lzma2ReadProofs Codec.Total2Proofs
   Mt.Units Mt.UnitsProofs Mt.Lzma2Units Mt.Lzma2UnitsAbsProofs Mt.Lzma2UnitsSimProofs.
 Ltac Zify.zify_post_hook ::= Z.div_mod_to_equations.
@@ -73,6 +74,20 @@ Proof.
   destruct (read_all_comp (l2_wsize dict) Hds Hds16 fuel false s0 sizes sizes [] _ data stt s_end HI Hs Hs Hr Hend)
     as (data' & D1 & D2 & D3 & _).
   cbn [rev app] in D2. subst data'. split; assumption.
+Qed.
+
+(* status 0 suffices: every error of the reader model is a non-zero io::Error kind *)
+Theorem reader_complete0 dict preset input sizes fuel s0 data s_end : bytes_ok input = true ->
+  lzma2_new input dict preset = Ok s0 -> pos_sizes sizes ->
+  lzma2_read_all fuel s0 sizes sizes [] = Ok (data, 0, s_end) ->
+  adecode (l2_wsize dict) (d_init (l2_wsize dict) preset) input = Some (data, m_in s_end) /\
+  m_end_reached s_end = true.
+Proof.
+  intros Hb Hnew Hs Hr. destruct (l2_wsize_ok dict) as (Hds & Hds16).
+  destruct (reader_init input dict preset Hb) as (s0' & Hnew' & HI). rewrite Hnew in Hnew'. inversion Hnew'; subst s0'.
+  pose proof (read_all_comp0 (l2_wsize dict) Hds Hds16 fuel false s0 sizes sizes [] _ data s_end HI Hs Hs Hr) as Hend.
+  destruct (reader_complete dict preset input sizes fuel s0 data 0 s_end Hb Hnew Hs Hr Hend) as (Ha & _).
+  split; assumption.
 Qed.
 
 Lemma l2_decodes_of_adecode dict preset input data tail : bytes_ok input = true ->
@@ -234,17 +249,16 @@ Proof.
 Qed.
 
 (* What LZMA2ReaderMT's workers compute, for a stream the single-threaded reader decodes. *)
-Theorem lzma2_mt_reader_data dict preset stream sizes fuel s0 data stt s_end :
-  bytes_ok stream = true ->
-  lzma2_new stream dict preset = Ok s0 -> pos_sizes sizes ->
-  lzma2_read_all fuel s0 sizes sizes [] = Ok (data, stt, s_end) -> m_end_reached s_end = true ->
-  stt = 0 /\ cr_end (cut_lzma2 stream) = None /\
+Theorem lzma2_mt_reader_data dict preset stream sizes fuel data s_end :
+  bytes_ok stream = true -> pos_sizes sizes ->
+  l2_read_result fuel stream dict preset sizes = Ok (data, 0, s_end) ->
+  cr_end (cut_lzma2 stream) = None /\
   exists datas, Forall2 (fun u du => l2_decodes u dict preset du) (cr_units (cut_lzma2 stream)) datas /\
                 concat datas = data.
 Proof.
-  intros Hb Hnew Hs Hr Hend.
-  destruct (reader_complete dict preset stream sizes fuel s0 data stt s_end Hb Hnew Hs Hr Hend) as (Ha & Hst).
-  split; [exact Hst|].
+  intros Hb Hs Hr. unfold l2_read_result in Hr.
+  destruct (lzma2_new stream dict preset) as [s0|e|e|] eqn:Hnew; cbn [obind] in Hr; try discriminate.
+  destruct (reader_complete0 dict preset stream sizes fuel s0 data s_end Hb Hnew Hs Hr) as (Ha & Hend).
   set (ds := l2_wsize dict) in *. set (d0 := d_init ds preset) in *.
   destruct (adecode_inv ds d0 stream data _ Ha) as (ks & Hin & Hks & Hdec).
   destruct (cut_lzma2_units ks (m_in s_end) Hks) as (Hu & He). rewrite <- Hin in Hu, He.
@@ -315,6 +329,84 @@ Proof.
   exists s_end. cbn [rev app] in Hr. auto.
 Qed.
 
+(* ---- what the writer model writes consists of bytes ------------------------------------------------ *)
+Lemma enc_symbol_hist c h x evs c1 h1 : enc_symbol c h x = Ok (evs, c1, h1) ->
+  h_data h1 = h_data h /\ h_dict h1 = h_dict h.
+Proof.
+  intros Hs. unfold enc_symbol in Hs. apply obind_ok in Hs as (km & _ & Hs).
+  destruct x as [b|dist len|idx len|].
+  - destruct (negb _); [discriminate|]. apply obind_ok in Hs as (? & _ & Hs). apply obind_ok in Hs as (? & _ & Hs).
+    apply Ok_inj in Hs. apply pair_inj in Hs as [_ <-]. split; reflexivity.
+  - destruct (negb _); [discriminate|]. apply obind_ok in Hs as (? & _ & Hs). apply obind_ok in Hs as (? & _ & Hs).
+    apply Ok_inj in Hs. apply pair_inj in Hs as [_ <-]. split; reflexivity.
+  - apply obind_ok in Hs as (? & _ & Hs). apply obind_ok in Hs as (? & _ & Hs). destruct (negb _); [discriminate|].
+    apply Ok_inj in Hs. apply pair_inj in Hs as [_ <-]. split; reflexivity.
+  - apply obind_ok in Hs as (? & _ & Hs). apply obind_ok in Hs as (? & _ & Hs).
+    apply Ok_inj in Hs. apply pair_inj in Hs as [_ <-]. split; reflexivity.
+Qed.
+
+Lemma enc_syms_hist syms : forall c h evs c' h', enc_syms c h syms = Ok (evs, c', h') ->
+  h_data h' = h_data h /\ h_dict h' = h_dict h.
+Proof.
+  induction syms as [|x r IH]; intros c h evs c' h' He; cbn [enc_syms] in He.
+  - apply Ok_inj in He. apply pair_inj in He as [_ <-]. split; reflexivity.
+  - apply obind_ok in He as ([[e1 c1] h1] & Hs & He). cbn [fst snd] in He.
+    apply obind_ok in He as ([[e2 c2] h2] & Hrs & He). cbn [fst snd] in He.
+    apply Ok_inj in He. apply pair_inj in He as [_ <-].
+    destruct (enc_symbol_hist _ _ _ _ _ _ Hs) as (A1 & A2). destruct (IH _ _ _ _ _ Hrs) as (B1 & B2).
+    split; congruence.
+Qed.
+
+Lemma aget_list_bytes t : (forall i, 0 <= aget 0 t i < 256) -> forall n i, bytes_ok (aget_list t i n) = true.
+Proof.
+  intros Ht. induction n as [|k IH]; intros i; cbn [aget_list]; [reflexivity|].
+  apply bytes_ok_cons. split; [apply Ht | apply IH].
+Qed.
+
+Lemma wrap8_byte x : 0 <= wrap8 x < 256.
+Proof. unfold wrap8. apply Z.mod_pos_bound. lia. Qed.
+
+Lemma chunks_ok_bytes lc lp pb r h bytes : chunks_ok lc lp pb r h bytes ->
+  (forall i, 0 <= aget 0 (h_data h) i < 256) -> h_dict h <= 2147483648 ->
+  match r with RNone _ t => probs_ok t | _ => True end ->
+  bytes_ok bytes = true.
+Proof.
+  induction 1 as [r h He | r h bytes _ IH | r h n bytes Hn Hle Hck IH | r h syms E c' h' usize csize bytes
+                  Hne Hs Hp Hbits Hu Hur Hc Hcr Hck IH]; intros Hd Hdict Hr.
+  - reflexivity.
+  - apply IH; [exact Hd | exact Hdict | exact I].
+  - apply bytes_ok_app. split.
+    { unfold unc_header. apply bytes_ok_cons. split; [destruct r; cbn; lia|].
+      apply bytes_ok_cons. split; [apply wrap8_byte|]. apply bytes_ok_cons. split; [apply wrap8_byte | reflexivity]. }
+    apply bytes_ok_app. split; [apply aget_list_bytes; exact Hd|].
+    apply IH; [exact Hd | exact Hdict | destruct r; exact I].
+  - destruct (enc_syms_hist _ _ _ _ _ _ Hs) as (Hdata' & Hdict').
+    assert (Ht0 : probs_ok (start_probs r)) by (destruct r; cbn [start_probs]; try exact probs_ok_empty; exact Hr).
+    assert (Hok : forallb RangeEncProofs.ev_ok E = true).
+    { rewrite forallb_ev_ok_same. eapply enc_syms_events_ok; [|exact Hs]. exact Hdict. }
+    apply bytes_ok_app. split.
+    { unfold lzma_header. apply bytes_ok_app. split.
+      - repeat (apply bytes_ok_cons; split; [apply wrap8_byte|]). reflexivity.
+      - destruct (has_props r); [|reflexivity]. apply bytes_ok_cons. split; [apply wrap8_byte | reflexivity]. }
+    apply bytes_ok_app. split.
+    { unfold chunk_body. apply renc_output_bytes_ok; assumption. }
+    apply IH; [rewrite Hdata'; exact Hd | rewrite Hdict'; exact Hdict|].
+    unfold RC_MAX_BITS in Hbits.
+    apply (renc_events_ok E renc_init (start_probs r) renc_inv_init Ht0 Hok). cbn [renc_init re_cache_size]. lia.
+Qed.
+
+Lemma lzma2_write_bytes lc lp pb dict data evs stream : dict <= 2147483648 -> bytes_ok data = true ->
+  l2_no_end evs -> lzma2_write lc lp pb dict None data evs = Ok stream -> bytes_ok stream = true.
+Proof.
+  intros Hdict Hb Hne Hw.
+  pose proof (lzma2_frame_sync lc lp pb dict None data evs stream Hdict Hne Hw) as Hck.
+  cbn [start_level preset_list] in Hck.
+  apply (chunks_ok_bytes lc lp pb _ _ _ Hck).
+  - intros i. apply (data_ok_new dict [] data eq_refl Hb i).
+  - exact Hdict.
+  - exact I.
+Qed.
+
 (* a reader that demands a dictionary reset accepts only a dictionary-reset chunk *)
 Lemma astep_first_indep ds d k r : d_need_dict_reset d = true -> astep ds d k = Some r -> chunk_independent k = true.
 Proof.
@@ -358,7 +450,9 @@ Lemma unit_adecode lc lp pb dict data evs body :
   exists ks, body = flat ks /\ Forall chunk_stable ks /\ starts_indep ks /\
              decode_chunks dstate (astep (l2_wsize dict)) (d_init (l2_wsize dict) None) ks = Some data.
 Proof.
-  intros Hlc Hlp Hs Hpb Hdict (Hbd & Hbb & Hne & Hw).
+  intros Hlc Hlp Hs Hpb Hdict (Hbd & Hne & Hw).
+  assert (Hbb : bytes_ok body = true).
+  { pose proof (lzma2_write_bytes lc lp pb dict data evs _ Hdict Hbd Hne Hw) as X. apply bytes_ok_app in X. apply X. }
   destruct (lzma2_roundtrip_ended lc lp pb dict data evs (body ++ [0]) [] [1] Hlc Hlp Hs Hpb Hdict Hbd Hne Hw
               ltac:(constructor; [lia | constructor])) as (s0 & Hnew & Hrun).
   destruct (Hrun (length data + 2)%nat ltac:(lia)) as (s_end & Hr & He & Hin).
@@ -401,8 +495,9 @@ Proof.
   { clear -E2. induction E2 as [|ks kss H _ IH]; [constructor|]. cbn [concat]. apply Forall_app. split; assumption. }
   assert (Hbytes : bytes_ok (mt_bodies us ++ 0 :: tail) = true).
   { apply bytes_ok_app. split.
-    - unfold mt_bodies. clear -Hus. induction Hus as [|[[data evs] body] us (_ & Hb & _) _ IH]; [reflexivity|].
-      cbn [map snd concat]. apply bytes_ok_app. split; assumption.
+    - unfold mt_bodies. clear -Hus Hdict. induction Hus as [|[[data evs] body] us (Hbd & Hne & Hw) _ IH]; [reflexivity|].
+      cbn [map snd concat]. apply bytes_ok_app. split; [|exact IH].
+      pose proof (lzma2_write_bytes lc lp pb dict data evs _ Hdict Hbd Hne Hw) as X. apply bytes_ok_app in X. apply X.
     - apply bytes_ok_cons. split; [lia | exact Htail]. }
   destruct (run_concat ds d0 kss _ E3 d0) as (d1 & Hrun).
   assert (Ha : adecode ds d0 (mt_bodies us ++ 0 :: tail) = Some (mt_data us, tail)).
